@@ -519,6 +519,10 @@ def _probe_m(out, cfg, pop, N):
 # --------------------------------------------------------------------------- shrinking
 def reducers(case):
     kind = case["kind"]
+    if "u_init" in case["cfg"]:
+        c = copy.deepcopy(case)
+        del c["cfg"]["u_init"]
+        yield c
     if kind == "exact-finite":
         pop = case["pop"]
         if case.get("rounds_mode"):
